@@ -747,4 +747,208 @@ def sigFlipSameInput (b1 b2 : Bytes) (t : Target) : Option Bool :=
     | _, _ => none
   | _, _ => none
 
+/-! ### signature subpackets: hashed area, unhashed area and what is taken from which -/
+
+structure Subpacket where
+  type : Nat            -- 0 … 127
+  critical : Bool
+  body : Bytes
+deriving Repr, DecidableEq
+
+/-- framing of `SubpacketDecode`: one subpacket from the front of an area.  Lengths are 32-bit; the
+    model covers areas whose claimed lengths stay below 2^32 - 6 (beyond that `headlen + len` wraps
+    in the library's comparison). -/
+def subSplit (input : Bytes) : Option (Subpacket × Bytes) :=
+  if input.length < 2 then none
+  else
+    let a := input.headD 0
+    let hl : Option (Nat × Nat) :=
+      if a < 192 then some (2, a)
+      else if a < 255 then
+        if input.length < 3 then none else some (3, (a - 192) * 256 + input.getD 1 0 + 192)
+      else if input.length < 6 then none
+      else some (6, fromBE ((input.drop 1).take 4))
+    match hl with
+    | none => none
+    | some (headlen, len) =>
+      if len = 0 then none
+      else if input.length < headlen + (len - 1) then none
+      else
+        let t := input.getD (headlen - 1) 0
+        some (⟨t % 128, decide (128 ≤ t), (input.drop headlen).take (len - 1)⟩,
+              input.drop (headlen + (len - 1)))
+
+/-- a whole area as a list of subpackets; `none`: malformed -/
+def subDecode : Nat → Bytes → Option (List Subpacket)
+  | 0, _ => none
+  | fuel + 1, input =>
+    if input = [] then some []
+    else match subSplit input with
+      | none => none
+      | some (sp, rest) => (subDecode fuel rest).map (sp :: ·)
+
+/-- `SubpacketEncode` -/
+def subEncode (sp : Subpacket) : Bytes :=
+  packetLengthEncode (sp.body.length + 1) ++ [if sp.critical then sp.type + 128 else sp.type] ++ sp.body
+
+/-- the part of the packet context the signature subpackets write and the key / signature classes read -/
+structure SigCtx where
+  creation : Nat := 0
+  expiration : Nat := 0
+  keyexpiration : Nat := 0
+  exportable : Bool := true
+  revocable : Bool := true
+  keyflags : Bytes := []
+  features : Bytes := []
+  psa : Bytes := []
+  pha : Bytes := []
+  pca : Bytes := []
+  paa : Bytes := []
+  revcode : Nat := 0
+  revkeyClass : Nat := 0
+  revkeyAlgo : Nat := 0
+  revkeyFpr : Bytes := List.replicate 32 0
+  primaryUid : Bool := false
+  issuer : Bytes := List.replicate 8 0
+  issuerVer : Nat := 0
+  issuerFpr : Bytes := List.replicate 32 0
+  embedded : Bytes := []
+deriving Repr, DecidableEq
+
+/-- `buf[0 .. v.length) := v` -/
+def overwrite (buf v : Bytes) : Bytes := v ++ buf.drop v.length
+
+def be32 (b : Bytes) : Nat := fromBE (b.take 4)
+
+/-- the `switch` of `SubpacketDecode`: `none` = error, otherwise the context and whether the type
+    was recognised (`false`: the value 0xFE) -/
+def applySub (c : SigCtx) (sp : Subpacket) : Option (SigCtx × Bool) :=
+  let b := sp.body
+  let n := b.length
+  match sp.type with
+  | 2 => if n ≠ 4 then none else some ({ c with creation := be32 b }, true)
+  | 3 => if n ≠ 4 then none else some ({ c with expiration := be32 b }, true)
+  | 4 => if n ≠ 1 then none else if b.headD 0 = 0 then some ({ c with exportable := false }, true)
+         else if b.headD 0 = 1 then some ({ c with exportable := true }, true) else none
+  | 5 => if n ≠ 2 then none else some (c, true)
+  | 6 => if n ≥ 2048 then none else some (c, true)
+  | 7 => if n ≠ 1 then none else if b.headD 0 = 0 then some ({ c with revocable := false }, true)
+         else if b.headD 0 = 1 then some ({ c with revocable := true }, true) else none
+  | 9 => if n ≠ 4 then none else some ({ c with keyexpiration := be32 b }, true)
+  | 11 => if n > 32 then none else some ({ c with psa := b }, true)
+  | 12 => if n ≠ 22 ∧ n ≠ 34 then none else if b.headD 0 < 128 then none
+          else some ({ c with revkeyClass := b.headD 0, revkeyAlgo := b.getD 1 0,
+                              revkeyFpr := overwrite c.revkeyFpr (b.drop 2) }, true)
+  | 16 => if n ≠ 8 then none else some ({ c with issuer := b }, true)
+  | 20 => if n < 8 then none
+          else
+            let nl := b.getD 4 0 * 256 + b.getD 5 0
+            let vl := b.getD 6 0 * 256 + b.getD 7 0
+            if n ≠ nl + vl + 8 then none else if nl > 2048 ∨ vl > 2048 then none else some (c, true)
+  | 21 => if n > 32 then none else some ({ c with pha := b }, true)
+  | 22 => if n > 32 then none else some ({ c with pca := b }, true)
+  | 23 => if n ≥ 2048 then none else some (c, true)
+  | 24 => if n ≥ 2048 then none else some (c, true)
+  | 25 => if n ≠ 1 then none else if b.headD 0 = 0 then some ({ c with primaryUid := false }, true)
+          else if b.headD 0 = 1 then some ({ c with primaryUid := true }, true) else none
+  | 26 => if n ≥ 2048 then none else some (c, true)
+  | 27 => if n > 32 then none else some ({ c with keyflags := b }, true)
+  | 28 => if n > 2048 then none else some (c, true)
+  | 29 => if n > 2049 ∨ n < 1 then none else some ({ c with revcode := b.headD 0 }, true)
+  | 30 => if n > 32 then none else some ({ c with features := b }, true)
+  | 31 => if n < 2 ∨ n > 2050 then none else some (c, true)
+  | 32 => some ({ c with embedded := b }, true)
+  | 33 => if n < 2 then none
+          else if b.headD 0 = 4 then
+            if n ≠ 21 then none else some ({ c with issuerVer := 4, issuerFpr := overwrite c.issuerFpr (b.drop 1) }, true)
+          else if b.headD 0 = 5 then
+            if n ≠ 33 then none else some ({ c with issuerVer := 5, issuerFpr := overwrite c.issuerFpr (b.drop 1) }, true)
+          else some ({ c with issuerVer := b.headD 0 }, false)
+  | 34 => if n > 32 then none else some ({ c with paa := b }, true)
+  | 35 => if n < 2 then none
+          else if b.headD 0 = 4 then (if n ≠ 21 then none else some (c, true))
+          else if b.headD 0 = 5 then (if n ≠ 33 then none else some (c, true))
+          else some (c, false)
+  | 37 => some (c, true)
+  | _ => some (c, false)
+
+/-- result of `SubpacketParse` on an area -/
+structure AreaResult where
+  tag : Nat                       -- 2, 0xFA (critical subpacket not understood) or 0xFB
+  ctx : SigCtx
+  embeddedsigs : List Bytes
+  notations : List (Bytes × Bytes)
+  recipients : List Bytes
+deriving Repr, DecidableEq
+
+/-- `SubpacketParse`: `none` = error.  The tag is overwritten by every subpacket that is not
+    understood — a critical one followed by a non-critical one leaves 0xFB. -/
+def parseSubs : List Subpacket → AreaResult → Option AreaResult
+  | [], r => some r
+  | sp :: rest, r =>
+    match applySub r.ctx sp with
+    | none => none
+    | some (c, recognised) =>
+      let r1 := { r with ctx := c }
+      if !recognised then parseSubs rest { r1 with tag := if sp.critical then 0xFA else 0xFB }
+      else
+        let b := sp.body
+        let nl := b.getD 4 0 * 256 + b.getD 5 0
+        let vl := b.getD 6 0 * 256 + b.getD 7 0
+        let r2 :=
+          if sp.type = 20 ∧ nl > 0 then
+            { r1 with notations := r1.notations ++ [((b.drop 8).take nl, (b.drop (8 + nl)).take vl)],
+                      tag := if sp.critical then 0xFA else r1.tag }
+          else r1
+        let r3 := if sp.type = 32 ∧ b ≠ [] then { r2 with embeddedsigs := r2.embeddedsigs ++ [b] } else r2
+        let r4 := if sp.type = 35 then { r3 with recipients := r3.recipients ++ [b.drop 1] } else r3
+        parseSubs rest r4
+
+def allZero (b : Bytes) : Bool := b.all (· == 0)
+
+/-- `PacketContextEvaluate(untrusted, out)`: issuer, embedded signature and issuer fingerprint are
+    taken from the unhashed area, each only if the hashed area left it unset -/
+def ctxEvaluate (u out : SigCtx) : SigCtx :=
+  let o1 := if allZero out.issuer then { out with issuer := u.issuer } else out
+  let o2 := if o1.embedded = [] ∧ u.embedded ≠ [] then { o1 with embedded := u.embedded } else o1
+  if allZero o2.issuerFpr then { o2 with issuerVer := u.issuerVer, issuerFpr := u.issuerFpr } else o2
+
+/-- the scratch context of the unhashed area starts from zeros -/
+def scratchCtx : SigCtx := { exportable := false, revocable := false }
+
+inductive SigParse where
+  | err                       -- `PacketDecodeTag2` returns 0
+  | critical                  -- … returns 0xFA
+  | ok (f : AreaResult)
+deriving Repr, DecidableEq
+
+/-- the subpacket part of `PacketDecodeTag2` (V4, V5): the hashed area fills the result context, the
+    unhashed area a scratch context of which `ctxEvaluate` takes three fields; embedded signatures
+    of both areas are listed, notations and recipients of the hashed area only -/
+def sigFields (hashed unhashed : List Subpacket) : SigParse :=
+  match (if hashed = [] then some ⟨2, {}, [], [], []⟩ else parseSubs hashed ⟨2, {}, [], [], []⟩) with
+  | none => .err
+  | some h =>
+    if hashed ≠ [] ∧ h.tag = 0xFA then .critical
+    else if unhashed = [] then .ok h
+    else
+      match parseSubs unhashed ⟨2, scratchCtx, [], [], []⟩ with
+      | none => .err
+      | some u => .ok { h with ctx := ctxEvaluate u.ctx h.ctx, embeddedsigs := h.embeddedsigs ++ u.embeddedsigs }
+
+/-- the same from the octets of the two areas -/
+def sigFieldsOfAreas (hashed unhashed : Bytes) : SigParse :=
+  match subDecode (hashed.length + 1) hashed, subDecode (unhashed.length + 1) unhashed with
+  | some h, some u => sigFields h u
+  | _, _ => .err
+
+/-- the signature the validity rules look at, from the fixed fields and the subpacket context -/
+def sigOfCtx (version type pkalgo hashalgo : Nat) (c : SigCtx) : Sig :=
+  { version := version, type := type, pkalgo := pkalgo, hashalgo := hashalgo,
+    creation := c.creation, expiration := c.expiration }
+
+/-- validity verdict of a parsed signature (`CheckValidity`) -/
+def sigValid (version type pkalgo hashalgo : Nat) (c : SigCtx) (keycreation now : Nat) : Bool :=
+  (checkValidity (sigOfCtx version type pkalgo hashalgo c) keycreation now).1
+
 end Tmcg.PgpMsg
